@@ -353,7 +353,26 @@ def _table_precedence(db, chk, m):
         verdict = (uses == {"call-time table"}) if uses else None
         chk.ob(rule, f"{cls}: when a table is passed with the frame, ids are decoded with THAT table (a table held by the filter is only the fallback)", verdict, m.loc(call.node), found=sorted(uses) or "no table-dependent predicate seen",
                accepted="call-time table", why="`self.symbol_table or symbol_table` lets a filter built for trace X decode the ids of trace Y with X's table: unrelated names are selected")
-    chk.floor(rule, 1)
+    # a NameFilter built for the decoded column (name_column='s_name') and used WITH a table: the ids of the table are matched against the id column `name`
+    I = Interp(db)
+    call = I.find_method((m, "NameFilter"), "__call__")
+    if call is not None:
+        tab = Obj("CALL_TABLE", cls=(st, "TraceSymbolTable"))
+        try:
+            runs = [r for r in I.explore(f"{call.mod.name}:{call.qualname}", lambda I: {"self": Obj("self", cls=(m, "NameFilter"), attrs={"name_pattern": T.P("PATTERN"), "name_column": "s_name", "symbol_table": None}),
+                                                                                       "df": Frame(DF, known=["name", "s_name", "cat", "ts", "dur"]), "symbol_table": tab})
+                    if r.raised is None and isinstance(r.ret, Frame) and r.ret.base == DF]
+        except AnalysisError:
+            runs = []
+        cols = set()
+        for r in runs:
+            for x in T.subterms(r.ret.rows):
+                if isinstance(x, tuple) and len(x) == 3 and x[0] == "in" and "CALL_TABLE" in T.show(x[2]) and isinstance(x[1], tuple) and x[1][0] == "col":
+                    cols.add(x[1][2])
+        chk.ob(rule, "NameFilter(name_column='s_name') used with a table: the table's ids are matched against the id column `name` (the column argument belongs to the string branch)",
+               (cols == {"name"}) if cols else None, m.loc(call.node), found=sorted(cols) or "no id membership test seen", accepted=["name"],
+               why="ids looked up in the decoded string column select nothing")
+    chk.floor(rule, 2)
 
 
 def _constructors(db, chk, m):
